@@ -125,6 +125,33 @@ Print Assumptions C17_hierarchy_depth_is_paths.
 Definition ex_tree : tree Z :=
   Nd [(1%N, Nd [(2%N, Lf 5%Z); (3%N, Nd [(4%N, Lf 7%Z)])]); (5%N, Lf 1%Z)].
 
+(* Lexical normalisation is compositional: normalising a suffix first changes nothing - from a node at a, the path p
+   and its normal form lead to the same place, with `..` at any position (F43: the pinned code failed this). *)
+Theorem C17_normalize_app_normalize : forall a p, normalize (a ++ normalize p) = normalize (a ++ p).
+Proof. exact normalize_app_normalize. Qed.
+Print Assumptions C17_normalize_app_normalize.
+
+(* Leading `..` segments are kept, all of them. *)
+Theorem C17_normalize_ups : forall n p, normalize (repeat Up n ++ dn p) = repeat Up n ++ dn p.
+Proof. exact normalize_ups. Qed.
+Print Assumptions C17_normalize_ups.
+
+(* The pinned normalize_path cancelled two leading `..` against each other. *)
+Theorem C17_normalize_pinned_refuted :
+  normalize_pinned [Up; Up; Dn 1%N] = [Dn 1%N] /\
+  normalize_pinned ([Dn 5%N; Dn 6%N] ++ [Up; Up; Dn 1%N]) <> normalize_pinned ([Dn 5%N; Dn 6%N] ++ normalize_pinned [Up; Up; Dn 1%N]).
+Proof. exact normalize_pinned_refuted. Qed.
+Print Assumptions C17_normalize_pinned_refuted.
+
+(* update_in leaves its argument as it was (F46); the pinned code planted empty dictionaries along a missing path *)
+Theorem C17_update_in_arg_unchanged : forall {A} (d d' : tree A) p, update_in_arg d p = Ok d' -> d' = d.
+Proof. intros A d d' p H. unfold update_in_arg in H. destruct (update_in d p (fun x => x)); cbn in H; [injection H as <-; reflexivity|discriminate]. Qed.
+Print Assumptions C17_update_in_arg_unchanged.
+Theorem C17_update_in_arg_pinned_refuted :
+  update_in_arg_pinned (Nd [(1%N, Lf 0%Z)]) [2%N; 3%N] = Ok (Nd [(1%N, Lf 0%Z); (2%N, Nd [(3%N, Nd [])])]).
+Proof. reflexivity. Qed.
+Print Assumptions C17_update_in_arg_pinned_refuted.
+
 Example ex_walk : walk ex_tree [1%N; 3%N] [Up; Dn 2%N] = Ok [1%N; 2%N]
                   /\ normalize (dn [1%N; 3%N] ++ [Up; Dn 2%N]) = dn [1%N; 2%N].
 Proof. split; reflexivity. Qed.
